@@ -212,6 +212,7 @@ def strain_outputs(ctx, am, cls, cry, sc, cutoff, theta, i, tag):
         p, axes, cls2 = p_argument(cls, cry, sc, i)
         if cls2 == 'p-single':
             # one list of reference vectors for all atoms (documented form)
+            rec.count('strain:p-single:attempted-without-axes')
             try:
                 am.defect.Strain(s1, cutoff=cutoff, p_vectors=p, theta_max=theta).G
                 rec.count('strain:p-single:solved-without-axes')
@@ -824,6 +825,7 @@ def run(ctx):
     rec.floor('strain:atoms-checked', f(10000))
     rec.floor('nye:atoms-checked(homogeneous)', f(8000))
     rec.floor('legacy:solved', f(60))
+    rec.floor('strain:p-single:attempted-without-axes', f(12))
     rec.floor('nye:atoms-checked(linear field)', f(1500))
     rec.floor('nye:nonzero-components-checked', f(100))
     rec.floor('nye:atoms-checked(linear field, legacy)', f(500))
